@@ -110,6 +110,19 @@ def main():
     except Exception as e:
         not_guard = False
         warn.append(f"Atom::Not: {e}")
+    # earley/grammar.rs ParametricNullableCtx::dnf: is the constant `true` under a negation the empty disjunction?
+    # (shape: the first two arms of the match in fn dnf; anything else falls to the variant the theorem refutes)
+    try:
+        src = (REPO / "parser/src/earley/grammar.rs").read_text()
+        m = re.search(r"fn dnf\(&mut self, cond: &ParamCond, neg: bool\) -> Result<Dnf> \{\s*let r = match cond \{(.*?)ParamCond::NE", src, re.S)
+        arms = re.sub(r"//[^\n]*", "", m.group(1)) if m else ""
+        arms = re.sub(r"\s+", " ", arms).strip()
+        not_true_false = arms == "ParamCond::True if neg => vec![], ParamCond::True => vec![self.clauses.insert(vec![])],"
+        if not m:
+            warn.append("fn dnf not found; NOT_TRUE_IS_FALSE default false")
+    except Exception as e:
+        not_true_false = False
+        warn.append(f"fn dnf: {e}")
     lines = ["(* Params.v — GENERATED by bin/gen_params.py from /repo on every run; do not edit *)",
              "From Coq Require Import NArith List.", "Import ListNotations.", "Open Scope N_scope."]
     for k, v in vals.items():
@@ -119,6 +132,7 @@ def main():
     lines.append(f"Definition MULTIPLE_OF_GUARD : bool := {'true' if mult_guard else 'false'}.")
     lines.append("Definition SELF_MAPPED_RANGES : list (N * N) := [" + "; ".join(f"({a}, {b})" for a, b in self_ranges) + "]%list.")
     lines.append(f"Definition LARK_NOT_EXCLUDES_MARKER : bool := {'true' if not_guard else 'false'}.")
+    lines.append(f"Definition NOT_TRUE_IS_FALSE : bool := {'true' if not_true_false else 'false'}.")
     lines.append(f"Definition PAR_COPY_USES_BITLEN : bool := {'true' if uses_bitlen else 'false'}.")
     text = "\n".join(lines) + "\n"
     if not OUT.exists() or OUT.read_text() != text:
